@@ -297,10 +297,9 @@ public:
         requires(detail::is_transparent_v<key_compare>)
     [[nodiscard]] constexpr auto find(K const& x) -> iterator
     {
-        return find_if(begin(), end(), [&x](auto const& val) {
-            auto comp = key_compare();
-            return comp(val, x);
-        });
+        auto cmp  = key_compare{};
+        auto* pos = etl::lower_bound(begin(), end(), x, cmp);
+        return (pos != end() && !cmp(x, *pos)) ? pos : end();
     }
 
     /// \brief Finds an element with key that compares equivalent to the value
@@ -309,10 +308,9 @@ public:
         requires(detail::is_transparent_v<key_compare>)
     [[nodiscard]] constexpr auto find(K const& x) const -> const_iterator
     {
-        return find_if(cbegin(), cend(), [&x](auto const& val) {
-            auto comp = key_compare();
-            return comp(val, x);
-        });
+        auto cmp        = key_compare{};
+        auto const* pos = etl::lower_bound(begin(), end(), x, cmp);
+        return (pos != end() && !cmp(x, *pos)) ? pos : end();
     }
 
     /// \brief Checks if there is an element with key equivalent to key in the
